@@ -212,7 +212,7 @@ func TestC06Stateful(t *testing.T) {
 				if withAlpha {
 					signers = alpha
 				} else {
-					signers = []neotest.Signer{w.nodes[0]}
+					signers = deficientSigners(rt, w.c, w.nodes[0])
 				}
 				pre := w.c.Snapshot()
 				o := w.c.Invoke(signers, w.nm, "subscribeForNewEpoch", target)
@@ -271,7 +271,7 @@ func TestC06Stateful(t *testing.T) {
 					e := w.cur + int64(d)
 					signers := alpha
 					if !withAlpha {
-						signers = []neotest.Signer{w.nodes[1]}
+						signers = deficientSigners(rt, w.c, w.nodes[1])
 					}
 					txs = append(txs, tickTx{e: e, alpha: withAlpha, tx: w.c.Prepare(signers, w.nm, "newEpoch", e)})
 				}
